@@ -1549,7 +1549,7 @@ def process_log(ctx: Any, rng: random.Random, logdef: dict[str, Any], regen: dic
                     "example_cases": cands[-2:]})
         for i, cand in enumerate(cands):
             run_case(ctx, st, cand)
-            if i % 16 == 15 and (ctx.out_of_time() or time.monotonic() > deadline):
+            if i % 16 == 15 and (ctx.out_of_time() or ctx.elapsed() > deadline):
                 break
         # a few real subprocess runs of the entry point
         if Env.sub_left > 0:
@@ -1579,14 +1579,14 @@ def run(ctx: Any, params: dict[str, Any]) -> None:
     setup_process(ctx, tz)
     Env.sub_left = params["sub"]
     Env.multi_sub_left = max(1, params["sub"] // 6)
-    deadline = time.monotonic() + params["wall"]
+    deadline = ctx.elapsed() + params["wall"]
     rng = ctx.rng
     edges = edge_logdefs(ctx.tier)
     for i, ld in enumerate(edges):
         if i % parts == part:
             process_log(ctx, rng, ld, None, True, deadline)
     for j in range(params["logs"]):
-        if ctx.out_of_time() or time.monotonic() > deadline:
+        if ctx.out_of_time() or ctx.elapsed() > deadline:
             ctx.reach("stopped_by_deadline")
             break
         seedstr = f"C17/{ctx.seed}/{part}/{j}"
